@@ -3,7 +3,7 @@
    with decimal/octal/hexadecimal lengths. *)
 From Coq Require Import List Arith NArith ZArith Lia Bool String.
 Import ListNotations.
-From Cffi Require Import C25.Model C07.Model C07.Realize C07.PyModel C07.Lexer C07.Tokens C07.Specs
+From Cffi Require Import C25.Model C07.Model C07.Realize C07.PyModel C07.Lexer C07.Tokens C07.Tables C07.Specs
      C07.SpecsAgree C07.Parse C07.Sequel C07.Sequel2.
 
 Local Open Scope nat_scope.
@@ -44,15 +44,16 @@ Proof. apply punct_lexeme; reflexivity. Qed.
 
 Definition is_lex (kt : kind * str) : Prop := lexeme (snd kt) (fst kt).
 
-Lemma sdecl_lexemes : forall d, sdecl d -> Forall is_lex (sdecl_toks d).
+Lemma sdecl_lexemes : forall gl d, sdecl gl d -> Forall is_lex (sdecl_toks d).
 Proof.
+  intros gl.
   assert (Hh : forall hdr, forallb hitem_plain hdr = true ->
                            Forall is_lex (map (fun h => (hkind h, hitem_token h)) hdr)).
   { induction hdr as [|h hdr IH]; intros H; cbn in *; constructor.
     - apply andb_true_iff in H as [H0 _]. destruct h as [|q|a]; unfold is_lex; cbn.
       + apply star_lexeme. + apply qual_lexeme. + discriminate.
     - apply IH. apply andb_true_iff in H as [_ H]. exact H. }
-  assert (Ha : forall arrays, Forall (fun a => alen_val a <> None) arrays ->
+  assert (Ha : forall arrays, Forall (fun a => alen_val gl a <> None) arrays ->
                               Forall is_lex (List.concat (map alen_toks arrays))).
   { induction arrays as [|a arrays IH]; intros H; cbn; [constructor|].
     inversion H as [|? ? H0 H1]; subst. apply Forall_app. split; [|apply IH; exact H1].
@@ -61,7 +62,9 @@ Proof.
     - destruct (py_int t) as [v|] eqn:E; [|congruence].
       constructor; [apply lbr_lexeme|]. constructor; [eapply py_int_lexeme; exact E|].
       constructor; [apply rbr_lexeme|]. constructor.
-    - congruence. }
+    - destruct (ident_okb n) eqn:E; [|congruence].
+      constructor; [apply lbr_lexeme|]. constructor; [apply ident_ok_lexeme, ident_okb_ok; exact E|].
+      constructor; [apply rbr_lexeme|]. constructor. }
   induction 1 as [hdr arrays H1 H2 | hdr arrays d' H1 H2 Hd IH Hs]; cbn [sdecl_toks].
   - rewrite app_nil_l. apply Forall_app. split; auto.
   - apply Forall_app. split; [auto|]. apply Forall_app. split; [|auto].
@@ -69,7 +72,7 @@ Proof.
     constructor; [apply rpar_lexeme | constructor].
 Qed.
 
-Lemma sdecl_tokens : forall d, sdecl d -> decl_tokens d = map snd (sdecl_toks d).
+Lemma sdecl_tokens : forall gl d, sdecl gl d -> decl_tokens d = map snd (sdecl_toks d).
 Proof.
   assert (Ha : forall arrays, List.concat (map alen_tokens arrays) = map snd (List.concat (map alen_toks arrays))).
   { induction arrays as [|a arrays IH]; cbn; [reflexivity|]. rewrite map_app, <- IH. destruct a; reflexivity. }
@@ -94,6 +97,7 @@ Proof. intros text n H. split; [eapply py_int_lexeme | apply py_int_strtoull]; e
 (* ---------------------------------------------------------------- the Python side *)
 Section Py.
 Variable g : genv.
+Notation gl := (g_globals g).
 
 Lemma wrap_stars_sem : forall hdr inner,
   denote_py g (wrap_stars hdr inner) = option_map (wrap_ptrs (nstars hdr)) (denote_py g inner).
@@ -107,21 +111,25 @@ Proof.
     + reflexivity.
 Qed.
 
-Lemma arrays_sem : forall arrays t1, Forall (fun a => alen_val a <> None) arrays ->
+Lemma arrays_sem : forall arrays t1, Forall (fun a => alen_val gl a <> None) arrays ->
   denote_py g (fold_right (fun a acc => PyArr acc a) t1 arrays) =
-  option_map (fun m => fold_right (fun a acc => MArr acc (lenval a)) m arrays) (denote_py g t1).
+  option_map (fun m => fold_right (fun a acc => MArr acc (lenval gl a)) m arrays) (denote_py g t1).
 Proof.
   induction arrays as [|a arrays IH]; intros t1 H; cbn [fold_right].
   - destruct (denote_py g t1); reflexivity.
   - inversion H as [|? ? H0 H1]; subst. cbn [denote_py]. rewrite IH by exact H1.
-    assert (Hd : py_dim g a = Some (lenval a)).
-    { unfold lenval. destruct a as [|t|n]; cbn in *; [reflexivity| |congruence].
-      destruct (py_int t); [|congruence]. destruct (_ <=? _)%Z; [reflexivity|congruence]. }
+    assert (Hd : py_dim g a = Some (lenval gl a)).
+    { unfold lenval. destruct a as [|t|n]; cbn [alen_val py_dim] in *; [reflexivity| |].
+      - destruct (py_int t); [|congruence]. destruct (_ <=? _)%Z; [reflexivity|congruence].
+      - destruct (ident_okb n); [|congruence]. unfold const_len, py_const in *.
+        destruct (assoc_str (g_globals g) n) as [[e neg value|]|]; cbn in H0 |- *; try congruence.
+        destruct (neg =? 0)%Z; cbn in H0 |- *; [|congruence].
+        destruct ((0 <=? value)%Z && (value <=? MAX_SSIZE_T)%Z); cbn in H0 |- *; [reflexivity|congruence]. }
     rewrite Hd. destruct (denote_py g t1); reflexivity.
 Qed.
 
-Lemma py_decl_sdecl : forall d, sdecl d -> forall inner,
-  denote_py g (py_decl d inner) = option_map (apply_decl d) (denote_py g inner).
+Lemma py_decl_sdecl : forall d, sdecl gl d -> forall inner,
+  denote_py g (py_decl d inner) = option_map (apply_decl gl d) (denote_py g inner).
 Proof.
   induction 1 as [hdr arrays H1 H2 | hdr arrays d' H1 H2 Hd IH Hs]; intros inner;
     cbn [py_decl apply_decl fold_right].
@@ -189,7 +197,7 @@ Proof.
   rewrite app_length in IH. cbn in H2. destruct s; [congruence|]. cbn. lia.
 Qed.
 
-Lemma cost_le_ntoks : forall d, sdecl d -> cost d <= ntoks d /\ nops d <= ntoks d.
+Lemma cost_le_ntoks : forall gl d, sdecl gl d -> cost d <= ntoks d /\ nops d <= ntoks d.
 Proof.
   assert (Ha : forall arrays, List.length arrays <= List.length (List.concat (map alen_toks arrays)) /\
                               list_sum (map arr_ops arrays) <= List.length (List.concat (map alen_toks arrays))).
@@ -198,7 +206,7 @@ Proof.
     destruct a; cbn; lia. }
   assert (Hs : forall hdr, nstars hdr <= List.length hdr).
   { intros. unfold nstars. induction hdr as [|h hdr IH]; cbn; [lia|]. destruct h; cbn; lia. }
-  unfold ntoks.
+  intros gl. unfold ntoks.
   induction 1 as [hdr arrays H1 H2 | hdr arrays d' H1 H2 Hd [IH1 IH2] Hst]; cbn [cost nops sdecl_toks].
   - rewrite app_nil_l, app_length, map_length. pose proof (Ha arrays). pose proof (Hs hdr). lia.
   - rewrite !app_length, map_length. cbn [List.length].
@@ -222,20 +230,21 @@ Definition simple_te (q1 : list qual) (ws : list word) (d : decl) : tyexpr :=
   TE (map SQ q1 ++ map stok_of_word ws) d.
 
 Theorem agree_partial : forall (g : genv) (osz : nat) q1 ws d wtoks trailing,
-  ws <> [] -> sign_ok ws = true -> sdecl d ->
+  ws <> [] -> sign_ok ws = true -> table_ok (map fst (g_globals g)) -> sdecl (g_globals g) d ->
   map snd wtoks = te_tokens (simple_te q1 ws d) ->
   sep_ok [] wtoks = true -> is_ws trailing = true ->
   S (nops d) <= osz -> cost d < 999 ->
   c_typeof osz g (spell wtoks trailing) = denote g (simple_te q1 ws d).
 Proof.
-  intros g osz q1 ws d wtoks trailing Hne Hsign Hd Htok Hsep Htr Hroom Hdepth.
+  intros g osz q1 ws d wtoks trailing Hne Hsign Hgl Hd Htok Hsep Htr Hroom Hdepth.
+  set (gl := g_globals g) in *.
   set (input := spell wtoks trailing).
   set (toks := spec_toks q1 ws ++ sdecl_toks d).
   assert (Htexts : map snd wtoks = map snd toks).
-  { rewrite Htok. unfold simple_te, toks. rewrite te_tokens_TE, (map_app snd), spec_tokens, sdecl_tokens by exact Hd.
+  { rewrite Htok. unfold simple_te, toks. rewrite te_tokens_TE, (map_app snd), spec_tokens, (sdecl_tokens gl d Hd).
     reflexivity. }
   assert (Hlex : Forall is_lex toks).
-  { unfold toks, spec_toks. apply Forall_app. split; [apply Forall_app; split|apply sdecl_lexemes; exact Hd].
+  { unfold toks, spec_toks. apply Forall_app. split; [apply Forall_app; split|apply (sdecl_lexemes gl); exact Hd].
     - clear. induction q1 as [|q q1 IH]; cbn [map]; constructor; [apply qual_lexeme | exact IH].
     - clear. induction ws as [|w ws IH]; cbn [map]; constructor; [apply word_lexeme | exact IH]. }
   assert (L : lexed input toks).
@@ -248,7 +257,7 @@ Proof.
     - rewrite Htexts. clear. induction toks as [|[k s] l IH]; cbn; congruence. }
   (* the Python side *)
   assert (Hpy : denote_mty g (simple_te q1 ws d) =
-                option_map (fun p => apply_decl d (prim_mty p)) (py_spec_abs ws)).
+                option_map (fun p => apply_decl gl d (prim_mty p)) (py_spec_abs ws)).
   { unfold denote_mty, simple_te. cbn [py_te]. rewrite py_decl_sdecl by exact Hd.
     cbn [denote_py]. rewrite filter_specs, denote_base_words by exact Hne.
     destruct (py_spec_abs ws); reflexivity. }
@@ -260,7 +269,7 @@ Proof.
   { rewrite <- Hntok. apply spell_length. apply (lex_nonempty wtoks toks Hlex Htexts). }
   assert (Htl : List.length toks = List.length q1 + List.length ws + ntoks d).
   { unfold toks, spec_toks, ntoks. rewrite !app_length, !map_length. reflexivity. }
-  destruct (cost_le_ntoks d Hd) as [Hc1 Hc2].
+  destruct (cost_le_ntoks _ d Hd) as [Hc1 Hc2].
   unfold c_typeof, parse_c_type, fuel_for. fold input.
   set (F := 6 * List.length input + 24).
   destruct F as [|f0] eqn:EF; [lia|].
@@ -309,14 +318,14 @@ Proof.
       by (rewrite Hfinal; left; reflexivity).
     assert (P2 : List.length [op] + nops d <= osz) by (cbn [List.length]; lia).
     assert (P3 : ntoks d + 1 < f1) by lia.
-    destruct (sequel_run osz (ctx_of g) g input toks L d Hd f1 (List.length q1 + List.length ws) [op] 0%Z
+    destruct (sequel_run osz (ctx_of g) g input toks L Hgl d Hd f1 (List.length q1 + List.length ws) [op] 0%Z
                 Hat P1 P2 P3) as (o' & idx & Hrun & Hlo & Hpre & Hsem).
     rewrite Hrun. cbn [bind]. rewrite (kind_T _ _ L), Hfinal. cbn [kind_eqb negb T_out].
     rewrite T_out.
     destruct (py_spec_abs ws) as [p|] eqn:Ep; cbn [option_map] in Hagree; [|discriminate].
     inversion Hagree as [Hop]. clear Hagree.
     unfold realize, denote. rewrite Hpy. cbn [option_map].
-    assert (Hdec : decode g realize_fuel o' idx = Some (apply_decl d (prim_mty p))).
+    assert (Hdec : decode g realize_fuel o' idx = Some (apply_decl gl d (prim_mty p))).
     { apply (Hsem o') with (n := 1) (m := prim_mty p).
       - intros j _. reflexivity.
       - change 0%Z with (Z.of_nat 0). apply dec_prim. rewrite Hpre by (cbn; lia). cbn. rewrite Hop. reflexivity.
